@@ -610,5 +610,12 @@ def c17_fresnel_power(ctx):
     return _r(ctx)
 
 
-RULES = [c17_fresnel_power, c07_aperture_scaled_once, c17_pol_entries, c02_lossless_without_k, index_edit, c17_coating_media, derived_sync_rule, c12_arg_names, no_stale, wmw_intensity, write_shape, beer_lambert, lost_write, aperture,
+def c02_contact_tolerance(ctx):
+    """shared with C02: no intensity is removed at a surface that merely
+    coincides with the previous one"""
+    from .C02 import contact_tolerance as _r
+    return _r(ctx)
+
+
+RULES = [c02_contact_tolerance, c17_fresnel_power, c07_aperture_scaled_once, c17_pol_entries, c02_lossless_without_k, index_edit, c17_coating_media, derived_sync_rule, c12_arg_names, no_stale, wmw_intensity, write_shape, beer_lambert, lost_write, aperture,
          coating_pair, record_intensity]
